@@ -92,20 +92,10 @@ theorem transport_frames_keep_invariants (es : List JEv) (s0 s : LSt) (hr : runJ
     (Life.Reachable s0 → Life.Reachable s ∧ (activeReaders s).length ≤ 1) := by
   rw [runJ_erase] at hr
   refine ⟨fun hk => reconnect_keeps_key _ s0 s hk hr, fun h0 => ?_⟩
-  have h := reachable_run _ s0 s h0 hr
+  have h := Life.reachable_run _ s0 s h0 hr
   exact ⟨h, single_reader s h⟩
 
-/-- the probe after any number of such frames: a fresh caller's request is enabled exactly as before them (the
-machine state differs in `warnings` only), so `probe_completes` applies unchanged -/
-theorem probe_enabled_after_frames (fs : List Bytes) (s s' : LSt) (h : reading s = true)
-    (hr : runJ s (fs.map JEv.frame) = some s') (c id seq : Nat) (salt : Int) :
-    (Life.step s' (.mach (.send c id seq salt))).isSome = (Life.step s (.mach (.send c id seq salt))).isSome := by
-  rw [transport_frames_are_harmless fs s h] at hr
-  cases hr
-  simp only [Life.step, machEnabled, writable, Client.step, mayCall]
-  repeat' split
-  all_goals simp_all
-
+/-- a request issued between such frames is enabled as ever, stays pending across a reconnect; warnings count the frames -/
 example : (runJ (connected0 {} true 7) [.frame [0x6c, 0xfe, 0xff, 0xff], .life (.mach (.send 1 4 1 0)), .frame [],
     .frame [1,2,3,4,5,6,7,8,9], .life .connClosed, .life (.redialOk 2 0), .frame [0,0,0,0]]).map
     (fun s => (s.m.warnings, s.m.pending, s.keyId, s.keyExchanges, reading s)) = some (4, [(4, 1)], 7, 0, true) := by
